@@ -341,6 +341,129 @@ fn rw_model(cfg: Value, template: PathBuf, work: PathBuf) -> impl Fn() + Sync + 
     }
 }
 
+/// C07: the main thread opens a scan, then other threads write, run a flush iteration and a
+/// compaction iteration while the main thread walks the cursor forward and backward.  The cursor
+/// must show exactly the state at open time, every call must succeed, and no released skiplist
+/// node may be dereferenced (allocation registry on).
+fn cursor_model(cfg: Value, template: PathBuf, work: PathBuf) -> impl Fn() + Sync + Send + Clone + 'static {
+    move || {
+        let n = begin_execution();
+        let dir = work.join(format!("x{}", n % 4));
+        let _ = std::fs::remove_dir_all(&dir);
+        vcore::copy_dir(&template, &dir).expect("copy template");
+        skipfree::verif::set_fixed_height(1);
+        skipfree::verif::set_registry(true);
+        sync42::verif::set_wait_list_slots(4);
+        let kvs = match KeyValueStore::open(options(&dir, &cfg["options"])) {
+            Ok(k) => Arc::new(k),
+            Err(e) => {
+                finding("open-error", format!("{e}"));
+                return;
+            }
+        };
+        let mut initial = BTreeMap::new();
+        for (k, v) in cfg["initial"].as_object().cloned().unwrap_or_default() {
+            initial.insert(k, v.as_str().unwrap().to_string());
+        }
+        build_state(&kvs, &cfg["pre"], &mut initial);
+        let snapshot: Vec<(String, String)> = initial.iter().map(|(k, v)| (k.clone(), v.clone())).collect();
+        let ub: Bound<&[u8]> = Bound::Unbounded;
+        let mut cursor = match kvs.range_scan(&ub, &ub) {
+            Ok(c) => c,
+            Err(e) => {
+                finding("op-error:range_scan", format!("{e}"));
+                return;
+            }
+        };
+        record(0, format!("scan opened over {snapshot:?}"));
+        let hist: Hist = Arc::new(StdMutex::new(vec![]));
+        let mut hs = vec![];
+        for (t, prog) in cfg["threads"].as_array().unwrap().iter().cloned().enumerate() {
+            let kvs = Arc::clone(&kvs);
+            let hist = Arc::clone(&hist);
+            hs.push(loom::thread::spawn(move || {
+                for op in prog.as_array().unwrap() {
+                    do_call(&kvs, t + 1, &hist, op);
+                }
+            }));
+        }
+        // walk forward to the end, then backward to the start
+        let mut seen_fwd = vec![];
+        let walk = vcore::catch(std::panic::AssertUnwindSafe(|| -> Result<(Vec<(String, String)>, Vec<(String, String)>), String> {
+            let mut fwd = vec![];
+            cursor.seek_to_first().map_err(|e| e.to_string())?;
+            loop {
+                cursor.next().map_err(|e| e.to_string())?;
+                match cursor.key_value() {
+                    None => break,
+                    Some(kv) => fwd.push((
+                        String::from_utf8_lossy(kv.key).to_string(),
+                        String::from_utf8_lossy(kv.value.unwrap_or(b"<TOMBSTONE>")).to_string(),
+                    )),
+                }
+                record(0, format!("next -> {:?}", fwd.last()));
+                if fwd.len() > 16 {
+                    return Err("forward walk does not terminate".into());
+                }
+            }
+            let mut bwd = vec![];
+            loop {
+                cursor.prev().map_err(|e| e.to_string())?;
+                match cursor.key_value() {
+                    None => break,
+                    Some(kv) => bwd.push((
+                        String::from_utf8_lossy(kv.key).to_string(),
+                        String::from_utf8_lossy(kv.value.unwrap_or(b"<TOMBSTONE>")).to_string(),
+                    )),
+                }
+                record(0, format!("prev -> {:?}", bwd.last()));
+                if bwd.len() > 16 {
+                    return Err("backward walk does not terminate".into());
+                }
+            }
+            Ok((fwd, bwd))
+        }));
+        match walk {
+            Err(p) => {
+                let uaf = p.contains("released node");
+                finding(
+                    if uaf { "cursor-use-after-free".to_string() } else { format!("cursor-panic:{}", loomh::norm(&p)) },
+                    format!("walking the kept cursor panicked: {p}"),
+                );
+            }
+            Ok(Err(e)) => finding(format!("cursor-error:{}", loomh::norm(&e)), format!("a cursor call failed: {e}")),
+            Ok(Ok((fwd, mut bwd))) => {
+                bwd.reverse();
+                if fwd != snapshot {
+                    finding(
+                        "cursor-forward-walk-differs-from-snapshot",
+                        format!("forward walk {fwd:?}, state at open {snapshot:?}"),
+                    );
+                }
+                if bwd != snapshot {
+                    finding(
+                        "cursor-backward-walk-differs-from-snapshot",
+                        format!("backward walk {bwd:?}, state at open {snapshot:?}"),
+                    );
+                }
+                seen_fwd = fwd;
+            }
+        }
+        drop(cursor);
+        for h in hs {
+            h.join().unwrap();
+        }
+        let shape: Vec<usize> = kvs.verif_tree().verif_levels().iter().map(|l| l.len()).collect();
+        // how the cursor calls interleaved with the other threads' steps (shows that the
+        // schedules really differ although the cursor's output must not)
+        let h = loomh::history();
+        let interleaving: Vec<bool> = h.iter().map(|l| l.starts_with("T0:")).collect();
+        outcome(&(seen_fwd, shape, interleaving));
+        drop(kvs);
+        skipfree::verif::set_registry(false);
+    }
+}
+
 /// C20: a writer whose flush must wait for compaction; the flush thread and compaction
 /// threads run their real loops and are released by a stop request once the writer and the flush
 /// are through.  loom reports a deadlock when every thread is parked.
@@ -451,6 +574,30 @@ fn configs(prop: &str, thorough: bool) -> Vec<Value> {
                 "pre": [["put", "b", "0"]],
                 "threads": [[["put", "a", "1"], ["get", "a"]], [["put", "a", "2"], ["get", "a"]], [["flush"]]], "limits": lim()}));
         }
+        "C07" => {
+            // snapshot spans an SST and the memtable; a writer, a flush and a compaction run
+            // while the cursor walks
+            v.push(json!({"harness": "cursor", "name": "cursor-vs-writer",
+                "template": [["put", "a", "1"], ["put", "b", "1"], ["flush"]],
+                "pre": [["put", "ab", "2"]], "initial": {"a": "1", "b": "1"},
+                "options": {"l0-mandatory-compaction-threshold-files": "1"},
+                "threads": [[["put", "a", "9"], ["del", "b"]]], "limits": lim()}));
+            v.push(json!({"harness": "cursor", "name": "cursor-vs-writer-and-flush",
+                "template": [["put", "a", "1"], ["put", "b", "1"], ["flush"]],
+                "pre": [["put", "ab", "2"]], "initial": {"a": "1", "b": "1"},
+                "options": {"l0-mandatory-compaction-threshold-files": "1"},
+                "threads": [[["put", "a", "9"]], [["flush"]]], "limits": lim()}));
+            v.push(json!({"harness": "cursor", "name": "cursor-vs-flush-and-compaction",
+                "template": [["put", "a", "1"], ["put", "b", "1"], ["flush"], ["put", "a", "3"], ["flush"]],
+                "pre": [["put", "ab", "2"]], "initial": {"a": "3", "b": "1"},
+                "options": {"l0-mandatory-compaction-threshold-files": "1"},
+                "threads": [[["flush"]], [["compact"], ["compact"]]], "limits": lim()}));
+            v.push(json!({"harness": "cursor", "name": "cursor-vs-compaction",
+                "template": [["put", "a", "1"], ["put", "b", "1"], ["flush"], ["del", "a"], ["flush"]],
+                "initial": {"b": "1"},
+                "options": {"l0-mandatory-compaction-threshold-files": "1"},
+                "threads": [[["compact"], ["compact"]]], "limits": lim()}));
+        }
         "C20" => {
             // L0 at the stall threshold: the flush of the writer's memtable has to wait for a
             // compaction; compaction threads loop for real
@@ -503,6 +650,7 @@ fn run_child(cfg: &Value) -> Value {
     let v = match cfg["harness"].as_str().unwrap() {
         "rw" => explore(cfg, &limits, rw_model(cfg.clone(), template, work)),
         "stall" => explore(cfg, &limits, stall_model(cfg.clone(), template, work)),
+        "cursor" => explore(cfg, &limits, cursor_model(cfg.clone(), template, work)),
         h => panic!("unknown harness {h}"),
     };
     drop(scratch);
@@ -522,7 +670,7 @@ fn main() {
         let v = run_child(&rf["case"]["cfg"]);
         loomh::replay_exit(&v, rf["signature"].as_str().unwrap_or(""));
     }
-    let prop = args.get("prop").expect("--prop C06|C20").to_string();
+    let prop = args.get("prop").expect("--prop C06|C07|C20").to_string();
     let mut rep = run_parent(
         &format!("loom_kvs-{prop}"),
         &prop,
